@@ -787,8 +787,181 @@ Proof.
   intros G Hk. pose proof (g_kret _ G Hk) as Hw. rewrite (g_wg _ G) in Hw.
   assert (Ep : ppc_ s = PDone) by (destruct (ppc_ s); simpl in Hw; try lia; reflexivity).
   assert (Eb : bpc_ s = BDone) by (destruct (bpc_ s); simpl in Hw; try lia; reflexivity).
-  rewrite (g_wg _ G), (g_nc _ G), (g_cc _ G), (g_bc _ G), Ep, Eb. simpl. auto.
+  rewrite (g_wg _ G), (g_nc _ G), (g_cc _ G), (g_bc _ G), Ep, Eb. simpl. repeat split; reflexivity.
 Qed.
 
 Lemma source_closed_at_most_once_G1 s : G1 s -> (nclose s <= 1)%nat.
 Proof. intros G. rewrite (g_nc _ G). destruct (ppc_ s); simpl; lia. Qed.
+
+(* ------------------------------------------------------------------ *)
+(* a variant: every step that is not a controller action or a clock    *)
+(* tick decreases [mu]                                                 *)
+(* ------------------------------------------------------------------ *)
+Definition lib_label (l : lab) : bool :=
+  match l with
+  | LRelease _ | LReleaseFull | LCancel _ | LCallNext _ | LCallClose | LTick _ | LQuiesce => false
+  | _ => true
+  end.
+
+Fixpoint sumf {A} (f : A -> nat) (l : list A) : nat :=
+  match l with [] => O | x :: t => (f x + sumf f t)%nat end.
+
+Lemma sumf_upd {A} (f : A -> nat) (l : list A) k x y :
+  nth_error l k = Some x -> (sumf f (upd l k y) + f x = sumf f l + f y)%nat.
+Proof.
+  revert k; induction l as [|a t IH]; intros [|k] H; simpl in *; try discriminate.
+  - inversion H; subst. lia.
+  - specialize (IH k H). lia.
+Qed.
+
+Definition rp (p : ppc) : nat :=
+  match p with PDone => 0 | PWg => 1 | PSrcClose => 2 | PCloseC => 3 | PInNext => 4 | PStart => 5 | PSend _ => 6 end.
+Definition rb (p : bpc) : nat :=
+  match p with
+  | BDone | BStuck => 0 | BWg => 1 | BExit => 2 | BFlush FCEnd => 3 | BLoop => 4 | BFlush _ => 5
+  | BInFull => 9 | BFull => 10
+  end.
+Definition rcp (p : cpc) : nat :=
+  match p with CDone _ | CIdle => 0 | CRet _ => 1 | CInner => 2 | CSel => 3 end.
+Definition rc (x : consumer) : nat := rcp (c_pc x).
+Definition rk (p : kpc) : nat :=
+  match p with KDone | KIdle => 0 | KRet => 1 | KWait => 2 | KCalled => 3 end.
+Definition rt (t : tstate) : nat := match t with TmArmed _ => 2 | TmFired => 1 | _ => 0 end.
+Definition rx (c : cstate) : nat := match c with XReq => 1 | _ => 0 end.
+
+Definition mu (s : st) : nat :=
+  (7 * (3 * length (srcq s) + rp (ppc_ s)) + 6 * sumf rc (cons s) + sumf rx (ctxs s)
+   + rk (kpc_ s) + 2 * rt (tmr s) + rb (bpc_ s))%nat.
+
+Lemma variant_G1 s l s' :
+  G1 s -> lib_label l = true -> step s l = Some s' -> (mu s' < mu s)%nat.
+Proof.
+  intros HG1 Hl H. pose proof (g_tc _ HG1) as Htc.
+  step_cases H Htc.
+  all: simpl in Hl; try discriminate Hl.
+  all: unfold mu; simpl; rw_goal; simpl.
+  all: repeat match goal with
+              | Hx : (_ && _)%bool = true |- _ => apply andb_prop in Hx; destruct Hx
+              end.
+  all: try match goal with
+           | Hg : getc ?s0 ?k0 = Some ?c0 |- context [upd (cons ?s0) ?k0 ?y] =>
+               pose proof (sumf_upd rc (cons s0) k0 c0 y Hg); unfold rc in *; simpl in *
+           end.
+  all: try match goal with
+           | Hg : nth_error (ctxs ?s0) ?k0 = Some ?c0 |- context [upd (ctxs ?s0) ?k0 ?y] =>
+               pose proof (sumf_upd rx (ctxs s0) k0 c0 y Hg); simpl in *
+           end.
+  all: try match goal with
+           | Hp : in_select (c_pc ?c0) = true |- _ => destruct (c_pc c0); simpl in *; try discriminate
+           | Hp : c_pc ?c0 = _ |- _ => rewrite Hp in *; simpl in *
+           end.
+  all: try match goal with |- context [rt (tmr ?s0)] => destruct (tmr s0); simpl end.
+  all: try match goal with |- context [match ?r with FCEnd => _ | _ => _ end] => destruct r; simpl end.
+  all: lia.
+Qed.
+
+(* ------------------------------------------------------------------ *)
+(* witnesses: the faithful model violates "every batch is non-empty"   *)
+(* and "underfilled only after maxWait" through a stale timer          *)
+(* ------------------------------------------------------------------ *)
+Definition run_from (mw : Z) (m : fmode) (calls : list nat) (nctx : nat) (ls : list lab) : st :=
+  match run qstep (init mw m calls nctx) ls with Some s => s | None => init mw m calls nctx end.
+
+(* Batch(s, maxWait = 10, batchSize = 5): item 1 arrives; call 0 announces itself and starts the
+   timer (deadline 10), its context expires; at clock 11 - the timer has not fired yet - call 1
+   announces itself: time.Since(batchStart) > maxWait, so the batch is flushed WITHOUT stopTimer;
+   the stale timer then fires and the `case <-timerC` arm flushes the new, empty batch to call 2. *)
+Definition w_stale_prefix : list lab :=
+  [LRelease (KItem 1); LSrcNextEnter; LSrcNextExit (RItem 1); TRecvItem; TFullEval;
+   LCallNext 0%nat; TRecvWaiting 0%nat;
+   LCancel 0%nat; TCancelEff 0%nat; TConsCtx 0%nat; LRetNext 0%nat CCtx;
+   LTick 11;
+   LCallNext 1%nat; TRecvWaiting 1%nat; TFlushSend 1%nat; LRetNext 1%nat (CBatch [1])].
+
+Definition w_empty : list lab :=
+  w_stale_prefix ++ [TTimerFire; TTimerArm; LCallNext 2%nat; TFlushSend 2%nat; LRetNext 2%nat (CBatch [])].
+
+(* ... or, if item 2 arrives first, the one-item batch [2] (batchStart = 11) is flushed at clock 11 *)
+Definition w_early : list lab :=
+  w_stale_prefix ++ [LRelease (KItem 2); LSrcNextEnter; LSrcNextExit (RItem 2); TRecvItem; TFullEval;
+                     TTimerFire; TTimerArm; LCallNext 2%nat; TFlushSend 2%nat; LRetNext 2%nat (CBatch [2])].
+
+Definition s_empty : st := run_from 10 (FBatch 5) [0; 1; 2]%nat 3 w_empty.
+Definition s_early : st := run_from 10 (FBatch 5) [0; 1; 2]%nat 3 w_early.
+
+Lemma s_empty_reach : Reach 10 (FBatch 5) [0; 1; 2]%nat 3 s_empty.
+Proof. exists w_empty. vm_compute. reflexivity. Qed.
+
+Lemma s_early_reach : Reach 10 (FBatch 5) [0; 1; 2]%nat 3 s_early.
+Proof. exists w_early. vm_compute. reflexivity. Qed.
+
+Lemma nonempty_refuted :
+  exists mw m calls nctx s d,
+    Reach mw m calls nctx s /\ In d (delivered s) /\ d_batch d = [] /\
+    result_of s (d_who d) = Some (CBatch []).
+Proof.
+  exists 10, (FBatch 5), [0; 1; 2]%nat, 3%nat, s_empty, (mkD 2 [] FCTimer 11 0 false).
+  split; [exact s_empty_reach|]. vm_compute. split; [right; left; reflexivity | split; reflexivity].
+Qed.
+
+Lemma maxwait_refuted :
+  exists mw m calls nctx s d,
+    Reach mw m calls nctx s /\ In d (delivered s) /\
+    d_batch d <> [] /\ zlen (d_batch d) < 5 /\ mode s = FBatch 5 /\ cclosed s = false /\
+    timed (d_reason d) = true /\ d_ann d = false /\ d_clock d < d_start d + maxw s.
+Proof.
+  exists 10, (FBatch 5), [0; 1; 2]%nat, 3%nat, s_early, (mkD 2 [2] FCTimer 11 11 false).
+  split; [exact s_early_reach|]. vm_compute.
+  split; [right; left; reflexivity|]. repeat split; try reflexivity. discriminate.
+Qed.
+
+(* ------------------------------------------------------------------ *)
+(* non-vacuity: runs on which the hypotheses of the theorems hold      *)
+(* ------------------------------------------------------------------ *)
+(* a timed delivery on a run without the stale-timer step *)
+Definition ex_timed : list lab :=
+  [LRelease (KItem 1); LSrcNextEnter; LSrcNextExit (RItem 1); TRecvItem; TFullEval; LSrcNextEnter;
+   LCallNext 0%nat; TRecvWaiting 0%nat; LTick 10; TTimerFire; TTimerArm; TFlushSend 0%nat;
+   LRetNext 0%nat (CBatch [1]); LQuiesce].
+Example ex_timed_ok :
+  let s := run_from 10 (FBatch 3) [0]%nat 1 ex_timed in
+  run qstep (init 10 (FBatch 3) [0]%nat 1) ex_timed = Some s /\ stale s = false /\
+  delivered s = [mkD 0 [1] FCTimer 10 0 true] /\ result_of s 0 = Some (CBatch [1]).
+Proof. vm_compute. repeat split; reflexivity. Qed.
+
+(* the historical hang scenario: batch full, no consumer, producer holds item 2, then Close *)
+Definition ex_close : list lab :=
+  [LRelease (KItem 1); LRelease (KItem 2); LSrcNextEnter; LSrcNextExit (RItem 1); TRecvItem; TFullEval;
+   LSrcNextEnter; LSrcNextExit (RItem 2); LQuiesce;
+   LCallClose; TBgCancel; TProdCancel; TFlushCancel; TCloseC; LSrcClose; TProdDone;
+   TCloseBatchC; TBatDone; TWgWait; LRetClose; LQuiesce].
+Example ex_close_ok :
+  let s := run_from 10 (FBatch 1) [] 0 ex_close in
+  run qstep (init 10 (FBatch 1) [] 0) ex_close = Some s /\ kpc_ s = KDone /\ nclose s = 1%nat /\
+  src s = [1; 2] /\ lostb s = [1] /\ lostp s = [2] /\ wg s = O.
+Proof. vm_compute. repeat split; reflexivity. Qed.
+
+(* an error after one item: the item is delivered first, then the error *)
+Definition ex_err : list lab :=
+  [LRelease (KItem 1); LRelease (KErr 7); LSrcNextEnter; LSrcNextExit (RItem 1); TRecvItem; TFullEval;
+   LSrcNextEnter; LSrcNextExit (RErr 7); TCloseC; LSrcClose; TProdDone; TRecvClosed;
+   LCallNext 0%nat; TFlushSend 0%nat; LRetNext 0%nat (CBatch [1]); TCloseBatchC; TBatDone;
+   LCallNext 1%nat; TConsClosed 1%nat; LRetNext 1%nat (CErr 7); LQuiesce].
+Example ex_err_ok :
+  let s := run_from 10 (FBatch 2) [0; 1]%nat 2 ex_err in
+  run qstep (init 10 (FBatch 2) [0; 1]%nat 2) ex_err = Some s /\ result_of s 1 = Some (CErr 7) /\
+  bgdone s = false /\ src s = [1] /\ dconcat s = [1] /\ srcres s = Some (RErr 7).
+Proof. vm_compute. repeat split; reflexivity. Qed.
+
+(* a context expiry between two waiters: the second one gets the batch *)
+Example ex_ctx_ok :
+  let s := run_from 10 (FBatch 5) [0; 1; 2]%nat 3 w_stale_prefix in
+  result_of s 0 = Some CCtx /\ result_of s 1 = Some (CBatch [1]) /\ src s = [1] /\ dconcat s = [1].
+Proof. vm_compute. repeat split; reflexivity. Qed.
+
+(* the matcher accepts the visible part of such runs *)
+Example ex_accepts :
+  accepts_history 10 (FBatch 1) [] 0
+    [LRelease (KItem 1); LRelease (KItem 2); LSrcNextEnter; LSrcNextExit (RItem 1); LSrcNextEnter;
+     LSrcNextExit (RItem 2); LQuiesce; LCallClose; LSrcClose; LRetClose; LQuiesce] = true.
+Proof. vm_compute. reflexivity. Qed.
